@@ -71,6 +71,7 @@ func runC01(c *vk.Ctx) {
 		r := c.RNG(key)
 		p := specProfile(r)
 		p.BigValues = false
+		p.Latin1 = i%5 == 0 // content that is not UTF-8: a page is bytes, and its size is counted in bytes
 		a := app.Generate(r, p)
 		cfg := genConfig(r, a, "s")
 		if a.Trans["nor"] != nil && r.Chance(1, 3) {
@@ -104,6 +105,9 @@ func runC01(c *vk.Ctx) {
 			cf := cfg
 			cf.OutputSize = size
 			for _, drv := range []string{"long", "mem"} {
+				if p.Latin1 && drv != "long" {
+					continue // a session holding such a value cannot be resumed (recorded under C07)
+				}
 				d, st := monitorSession(c, a, cf, hist, sessOpts{Driver: drv})
 				c.Eval(vk.Hash64(key, drv, fmt.Sprint(size)), st.TextCompared > 0)
 				c.Count("model_pages_compared_textually", int64(st.TextCompared))
@@ -129,7 +133,11 @@ func runC01(c *vk.Ctx) {
 		p := c07Profile(r)
 		p.Sinks = i%2 == 1
 		p.BigValues = i%6 == 0 // results of 65536+limit.. bytes are refused by the cache; 65535-byte limits make 64 KiB pages
+		p.Latin1 = i%4 == 1    // function results and sink rows with bytes that are not UTF-8
 		a := app.Generate(r, p)
+		if p.Latin1 {
+			c.Count("engine_apps_with_non_utf8_content", 1)
+		}
 		cfg := genConfig(r, a, "s")
 		cfg.OutputSize = 0
 		if a.Trans["nor"] != nil && r.Chance(1, 3) {
